@@ -18,7 +18,7 @@ RULES = {
     "R1": 'rows() announces what render() produces: the traced expression rows() returns equals, case by case (FIT / AUTO), the height component of the size render() gives the image in a flow layout (FIT: set_size(size[0]); AUTO: ORIGINAL if it fits into the FIT size else FIT); the canvas records the size it was rendered with',
     "R2": "row assembly: in the text branch of UrwidImageCanvas.content each image row is [left padding, recovered first colour, image cells, "
           "colour reset, right padding, last-row workaround]; the first colour is recovered by scanning backwards from the cut and keeps the cell's "
-          "whole colour prefix (up to its LAST 'm'); the untrimmed fast path is taken only when both horizontal trims are zero",
+          "whole colour prefix (up to its LAST 'm'); the untrimmed fast path is taken only when both horizontal trims are zero; a slice [lo:hi] of the held lines takes hi - lo == visible_rows rows",
     "R3": "the canvas describes the render it holds: content() uses the image size recorded when the canvas was rendered (self._ti_image_size), never "
           "the image's current size; its padding split (near = n//2, far = n-near; remainder to the far side) is the one _format_render used",
 }
